@@ -60,7 +60,14 @@ PUSHNEST = [lambda b: P('PUSH', P('pair', NAT, LAM_T), P('Pair', {'int': '1'}, b
             lambda b: P('PUSH', P('list', LAM_T), [b]),
             lambda b: P('PUSH', P('or', NAT, LAM_T), P('Right', b)),
             lambda b: P('PUSH', P('map', NAT, LAM_T), [P('Elt', {'int': '1'}, b)]),
-            lambda b: P('PUSH', P('pair', LAM_T, NAT), P('Pair', b, {'int': '1'}))]
+            lambda b: P('PUSH', P('pair', LAM_T, NAT), P('Pair', b, {'int': '1'})),
+            # the lambda type two or three levels below the pushed type (seeded C32_13: a non-recursive search for `lambda`)
+            lambda b: P('PUSH', P('pair', NAT, P('pair', NAT, LAM_T)), P('Pair', {'int': '1'}, P('Pair', {'int': '2'}, b))),
+            lambda b: P('PUSH', P('list', P('option', LAM_T)), [P('Some', b)]),
+            lambda b: P('PUSH', P('map', NAT, P('or', UNIT, LAM_T)), [P('Elt', {'int': '1'}, P('Right', b))]),
+            lambda b: P('PUSH', P('option', P('pair', P('list', LAM_T), NAT)), P('Some', P('Pair', [b], {'int': '1'}))),
+            lambda b: P('PUSH', P('pair', NAT, NAT, LAM_T), P('Pair', {'int': '1'}, {'int': '2'}, b)),
+            lambda b: P('PUSH', P('lambda', UNIT, LAM_T), [P('DROP'), P('LAMBDA', UNIT, UNIT, b)])]
 TYPES = [UNIT, NAT, P('pair', NAT, P('string')), P('option', P('address'))]
 
 
